@@ -155,7 +155,7 @@ class SeqEngine(Engine):
 # ----------------------------------------------------------------- threads
 class Worker(threading.Thread):
   def __init__(self, gin, probe, steps):
-    super().__init__(daemon=True)
+    super().__init__(daemon=True, name='worker')   # all workers share one name on purpose
     self.gin, self.probe, self.steps = gin, probe, steps
     self.go = threading.Semaphore(0)
     self.done = threading.Semaphore(0)
